@@ -292,7 +292,9 @@ def run_case(case):
             elite *= 2
         cfg = dict(solver=case["solver"] if case.get("solver") else rnd.choice(["cem", "evo"]), dim=dim, umin=lo, umax=hi, pop=pop, elite=elite,
                    smooth=round(rnd.choice([0.0, 0.1, 0.5, 0.9]), 2), loss=rnd.choice(["convex", "multimodal", "plateau", "plateau", "constant", "halfspace"]),
-                   nan_p=rnd.choice([0.0, 0.0, 0.3, 0.7, 0.9]), target=[round(rnd.uniform(a, b), 3) for a, b in zip(lo, hi)], iters=iters,
+                   nan_p=rnd.choice([0.0, 0.0, 0.3, 0.7, 0.9]),
+                   # the optimum may lie inside, on or beyond the bounds (then the best candidates are clipped ones)
+                   target=[round(rnd.choice([rnd.uniform(a, b), a, b, b + (b - a), a - 0.5 * (b - a)]), 3) for a, b in zip(lo, hi)], iters=iters,
                    all_nan_iters=sorted(rnd.sample(range(1, iters), rnd.choice([0, 0, 1, 2]))), seed=rnd.randrange(1 << 20),
                    strategy=rnd.choice(["CMA_ES", "OpenES", "SimpleGA", "DE", "PSO", "Sep_CMA_ES"]), two_leaf=(rnd.random() < 0.4))
         if rnd.random() < 0.2:
